@@ -17,7 +17,8 @@ RULE = ("Hypothesis-generated scenarios (1-3 chromosomes, annotated + novel isof
         "--read_group tag, --read_group file:<table>} x {--keep_tmp, not} x {gzip, --no_gzip}, --threads 1; one clean "
         "run, one instrumented run listing the N mutation points (file creation, append-open, removal, directory "
         "creation, database creation), then for every k in 1..N, once crashing before and once after the mutation (quick: 2 scenarios, thorough: 6), "
-        "a crashed run followed by `--resume`. A case = (scenario, k, mode); distinct by construction; non-trivial = "
+        "a crashed run followed by `--resume`; and histories with two kills (the resumed run is killed at its own mutation k2, "
+        "then resumed again). A case = (scenario, k, mode); distinct by construction; non-trivial = "
         "crash point after the first intermediate file was written (collection, construction, merging, clean-up "
         "phases). exhaustive=true: all points of every generated scenario were visited.")
 ASSUMPTIONS = ["crash = os._exit at a Python-level file-system mutation of the main process (unflushed buffers are "
@@ -139,7 +140,7 @@ def start_dir(stale, out):
     return []
 
 
-def enumerate_scenario(sc, ctx, shard, nshards, modes, stride=1):
+def enumerate_scenario(sc, ctx, shard, nshards, modes, stride=1, double_stride=2):
     d = ctx.scratch()
     try:
         paths, extra = prepare(sc, d)
@@ -211,8 +212,91 @@ def enumerate_scenario(sc, ctx, shard, nshards, modes, stride=1):
                             case)
                 shutil.rmtree(out, ignore_errors=True)
                 shutil.rmtree(h, ignore_errors=True)
+        # histories with two kills: the run is killed at k, the resumed run is killed at its own mutation k2 (counted
+        # from its first mutation, which is the rewriting of .params), and the second resumed run must finish with the
+        # outputs of the clean run
+        params_at = None
+        for k in range(1, n + 1):
+            if (k - 1) % nshards != shard or ((k - 1) // nshards) % double_stride:
+                continue
+            label = labels[k - 1]
+            phase = phase_of(label, k, labels)
+            if params_at is None:
+                params_at = params_index(sc, d, paths, extra, stale, k, ctx)
+            for k2, mode2 in ((params_at, "after"), (params_at + 1, "before"), (params_at + 1 + (k * 7) % 11, "after"),
+                              (params_at + 12 + (k * 13) % 40, "before")):
+                ctx.evaluations += 1
+                ctx.cls("phase=" + phase, "mode=double")
+                if phase != "setup":
+                    ctx.nontrivial_n += 1
+                case = {"scenario": sc, "k": k, "mode": "after", "label": label, "k2": k2, "mode2": mode2}
+                double_kill(sc, d, paths, extra, stale, clean_out, case, phase, ctx, n)
     finally:
         shutil.rmtree(d, ignore_errors=True)
+
+
+def params_index(sc, d, paths, extra, stale, k, ctx):
+    """index of the mutation of a resumed run that rewrites .params (its first mutations are the same at every k)"""
+    out = os.path.join(d, "plist")
+    h = os.path.join(d, "home_plist")
+    lab = os.path.join(d, "plist.txt")
+    try:
+        ctx.pipeline_runs += 2
+        fresh_reference(paths)
+        code = run.run_fork(build.base_argv(sc, paths, out, extra + start_dir(stale, out)), h,
+                            os.path.join(d, "crash.log"), env={"ABLAB_ISOQUANT_VERIF": "1"},
+                            pre=lambda: crashwrap.install(k, "after", None))
+        if code != crashwrap.EXIT_CODE:
+            return 1
+        run.run_fork(["--resume", "-o", out], h, os.path.join(d, "resume1.log"), env={"ABLAB_ISOQUANT_VERIF": "1"},
+                     pre=lambda: crashwrap.install(0, "before", lab, armed=True))
+        for l in open(lab):
+            i, label = l.rstrip("\n").split("\t", 1)
+            if label.endswith("/.params") or label.endswith("/.params.tmp"):
+                return int(i)
+        return 1
+    finally:
+        shutil.rmtree(out, ignore_errors=True)
+        shutil.rmtree(h, ignore_errors=True)
+
+
+def double_kill(sc, d, paths, extra, stale, clean_out, case, phase, ctx, n=None):
+    k, k2, mode2, label = case["k"], case["k2"], case["mode2"], case["label"]
+    out = os.path.join(d, "dbl_%d_%d" % (k, k2))
+    h = os.path.join(d, "home_dbl_%d_%d" % (k, k2))
+    try:
+        ctx.pipeline_runs += 1
+        fresh_reference(paths)
+        code = run.run_fork(build.base_argv(sc, paths, out, extra + start_dir(stale, out)), h,
+                            os.path.join(d, "crash.log"), env={"ABLAB_ISOQUANT_VERIF": "1"},
+                            pre=lambda: crashwrap.install(k, case["mode"], None))
+        if code != crashwrap.EXIT_CODE:
+            ctx.note("crash_point_not_reached" if code == 0 else "crash_run_exit_%s" % code)
+            return
+        ctx.pipeline_runs += 1
+        code2 = run.run_fork(["--resume", "-o", out], h, os.path.join(d, "resume1.log"),
+                             env={"ABLAB_ISOQUANT_VERIF": "1"},
+                             pre=lambda: crashwrap.install(k2, mode2, None, armed=True))
+        rlog = os.path.join(d, "resume1.log")
+        rcode = code2
+        if code2 == crashwrap.EXIT_CODE:
+            ctx.cls("second_kill_reached")
+            ctx.pipeline_runs += 1
+            rlog = os.path.join(d, "resume2.log")
+            rcode = run.run_fork(["--resume", "-o", out], h, rlog)
+        det = {"k": k, "of": n, "mode": "after", "mutation": label, "k2": k2, "mode2": mode2}
+        if rcode != 0:
+            r = pipeline.Result(d, rcode, out, paths, rlog)
+            ctx.violation("C07:resume-aborts:%s-phase:%s:after-a-killed-resume" % (phase, r.crash_signature().split("@")[0]),
+                          dict(det, exit=rcode, log=r.log_tail(6)), case)
+        else:
+            for kind, f, dd in compare.diff_dirs(clean_out, "OUT", out, "OUT"):
+                ctx.violation("C07:resumed-output-%s:%s-phase:%s:after-a-killed-resume" % (
+                    "differs" if kind == "content" else "missing" if kind == "only-in-first" else "extra", phase, f),
+                    dict(det, file=f, detail=dd), case)
+    finally:
+        shutil.rmtree(out, ignore_errors=True)
+        shutil.rmtree(h, ignore_errors=True)
 
 
 def run_enumeration(shard, nshards, seed, n, ctx, tier="quick"):
@@ -237,7 +321,7 @@ def run_enumeration(shard, nshards, seed, n, ctx, tier="quick"):
             sc["opts"] = [o for o in sc["opts"] if o != "--keep_tmp"]
         sc["stale_dir"] = i % 2 == 1
         sc["gz_reference"] = i % 2 == 0
-        enumerate_scenario(sc, ctx, shard, nshards, modes)
+        enumerate_scenario(sc, ctx, shard, nshards, modes, double_stride=2 if tier == "quick" else 1)
     ctx.evaluations = 0
     body()
 
@@ -255,6 +339,9 @@ def eval_replay(case, ctx):
             ctx.harness_errors.append("clean run failed in replay")
             return
         stale = make_stale(sc, d, paths, extra, ctx)
+        if "k2" in case:
+            double_kill(sc, d, paths, extra, stale, clean_out, case, phase_of(case["label"], case["k"], []), ctx)
+            return
         out = os.path.join(d, "crash")
         h = os.path.join(d, "home")
         k, mode = case["k"], case["mode"]
